@@ -127,7 +127,8 @@ def held_term(state, names):
     out = []
     for i, n in enumerate(state):
         items = clist(["(%s, %s)" % (cN(names.kid(h["key"])), content_term(canon(h["content"], names))) for h in n["held"]])
-        out.append("(%s, %s)" % (cN(i), items))
+        infl = clist(["(%s, %s)" % (cN(names.kid(k)), rtype_term(t, names)) for k, t in n.get("inflight", [])])
+        out.append("(%s, %s, %s)" % (cN(i), items, infl))
     return clist(out)
 
 
@@ -487,12 +488,37 @@ def gen_crowded(rng, idx):
     return {"kind": "crowded", "nodes": nodes, "ops": ops, "full_rounds": 0}
 
 
+def gen_midflight(rng, idx):
+    """the holder's mutable record changes between its advertisement and the fetch being served: the
+    fetcher must still treat the fetch as done when the (newer) record is stored"""
+    nodes = rng.sample(range(1, 60), 2)
+    ops = connects(2, rng, True)
+    o = rng.randint(1, 30)
+    kind = rng.choice(["reg", "txs", "pad"])
+    if kind == "reg":
+        v1, v2 = rec_reg(o, 1, [1]), rec_reg(o, 1, [1, 2])
+    elif kind == "txs":
+        v1, v2 = rec_txs(o, [1]), rec_txs(o, [1, 2])
+    else:
+        v1, v2 = rec_pad(o, 1, 1), rec_pad(o, 2, 2)
+    ops.append(seed(0, v1))
+    if rng.random() < 0.5:
+        ops.append(seed(0, rec_chunk(idx * 10)))
+    ops.append({"op": "replicate", "node": 0})
+    ops.append({"op": "deliver", "i": 0})          # the list reaches node 1: fetches are now pending
+    ops.append(seed(0, v2))                        # the holder's copy moves on
+    ops.append({"op": "run", "picks": [rng.randrange(0, 3)]})
+    ops.append({"op": "replicate", "node": 0})
+    ops.append({"op": "run", "picks": [0]})
+    return {"kind": "midflight-" + kind, "nodes": nodes, "ops": ops, "full_rounds": 1}
+
+
 def gen(ctx):
     rng = ctx.rng
-    n = 70 if ctx.tier == "quick" else 1400
+    n = 80 if ctx.tier == "quick" else 1600
     cases = []
     for i in range(n):
-        f = [gen_missing, gen_missing, gen_divergent, gen_adverts, gen_partial, gen_ranged, gen_crowded][i % 7]
+        f = [gen_missing, gen_missing, gen_divergent, gen_adverts, gen_partial, gen_ranged, gen_crowded, gen_midflight][i % 8]
         cases.append(f(rng, 100 + i))
     return cases
 
